@@ -94,7 +94,9 @@ fn apply_patch_with_data(
             let new_byte = apply_diff_byte(old_byte, diff_byte);
 
             output.push(new_byte);
-            old_pos += 1;
+            // Seeks saturate at usize::MAX (reads there yield zero), so the
+            // position must not overflow here either
+            old_pos = old_pos.saturating_add(1);
         }
 
         // Copy extra block
@@ -280,7 +282,7 @@ impl<R: Read + Seek> ZbsdiffPatcher<R> {
                 output.push(apply_diff_byte(*old_byte, *diff_byte));
             }
 
-            *old_pos += chunk_size;
+            *old_pos = old_pos.saturating_add(chunk_size);
             remaining -= chunk_size;
         }
 
